@@ -105,7 +105,8 @@ vars == <<st, pc>>
 \* (Fams is built with recursive operators, so TLC re-evaluates it at every use: each family is
 \* handed on as an operator argument)
 InitOf(fam) == \E c \in Codes(fam) : st = InitSt(GraphOf(fam, c)) /\ pc = Br(st)
-Init == \E fi \in 1..Len(Fams) : InitOf(Fams[fi])
+\* (\E over a singleton binds an evaluated value)
+Init == \E fi \in 1..Len(Fams) : \E fam \in {Fams[fi]} : InitOf(fam)
 Act(b) == pc = b /\ st' = Tick(Eff(b, st)) /\ pc' = Br(st')
 StartMissing == Act("StartMissing")
 StartSyntax == Act("StartSyntax")
